@@ -1,6 +1,7 @@
 import SeqVerif.Model.PatternTop
 import SeqVerif.Model.PatternRange
 import SeqVerif.Model.PatternProvider
+import SeqVerif.Model.PatternSpec
 import SeqVerif.Extracted.C13
 /-!
 # C13 - token matching equals glob / range semantics, with or without dictionary narrowing
@@ -154,6 +155,81 @@ theorem c13_range_searcher (pf : Bytes → Option Int) (maxKey : Int) (r : Range
 theorem c13_bcmp_total_order (a b c : Bytes) :
     (bcmp a b = .eq ↔ a = b) ∧ (bcmp a b = .gt ↔ bcmp b a = .lt) ∧ (bLt a b → bLt b c → bLt a c) :=
   ⟨bcmp_eq_iff a b, bcmp_gt_iff a b, bLt_trans⟩
+
+/-! ## composition with the shared Spec (discharges C02's "pattern.Search = Leaf.valMatch is C13's job") -/
+
+/-- the Spec's glob matcher is the inductive `Glob` of this file (hence equal to `globB`) -/
+theorem c13_glob_eq_spec (terms : List Term) (v : Bytes) :
+    (SV.Spec.globMatch (specTerms terms) v = true ↔ Glob terms v) ∧ SV.Spec.globMatch (specTerms terms) v = globB terms v :=
+  ⟨spec_globMatch_iff terms v, spec_globMatch_eq terms v⟩
+
+/-- the Spec's byte order is `bytes.Compare` as modelled here -/
+theorem c13_bytes_order_eq_spec (a b : Bytes) :
+    SV.Spec.bytesLt a b = (bcmp a b == .lt) ∧ SV.Spec.bytesLe a b = (bcmp a b != .gt) :=
+  ⟨spec_bytesLt_eq a b, spec_bytesLe_eq a b⟩
+
+/-- **range check = Spec leaf** on strings where the ParseFloat oracle and `Spec.numVal` (decimal integers) are
+defined alike and order alike (`NumAgree pf S`, with the ends and the token in `S`).  The text branch needs no
+such hypothesis beyond the domain agreement that selects the branch. -/
+theorem c13_range_eq_spec_leaf (pf : Bytes → Option Int) (maxKey : Int)
+    (hb : ∀ b x, pf b = some x → -maxKey ≤ x ∧ x ≤ maxKey) (S : Bytes → Prop) (hag : NumAgree pf S)
+    (field : Bytes) (r : Range) (hf : ∀ f, r.from_ = some f → S f) (ht : ∀ t, r.to = some t → S t)
+    (v : Bytes) (hv : S v) :
+    rangeCheck pf maxKey r v = (specLeaf field (.range r)).valMatch v :=
+  rangeCheck_eq_spec pf maxKey hb S hag field r hf ht v hv
+
+/-- **C13 ∘ Spec.**  Every search path returns exactly the TIDs whose token satisfies the Spec's leaf predicate
+`Leaf.valMatch` (`SpecOK`: literal/wildcard tokens - the parsers' well-formedness only; range tokens - finite-key
+bound and `NumAgree` on the ends and the dictionary):
+(1) unordered provider / scan, (2) ordered provider with narrowing over a strictly sorted dictionary,
+(3) the sealed path with block pre-selection, (4) the active path `FindPattern` (real TIDs). -/
+theorem c13_search_eq_spec_leaf (pf : Bytes → Option Int) (maxKey : Int) (field : Bytes) (token : Token) (base : Nat) :
+    (∀ dict, SpecOK pf maxKey token dict →
+      search pf maxKey token ⟨base, dict, false⟩ = some (specTids (specLeaf field token) base dict)) ∧
+    (∀ dict, dict.Pairwise bLt → SpecOK pf maxKey token dict →
+      search pf maxKey token ⟨base, dict, true⟩ = some (specTids (specLeaf field token) base dict)) ∧
+    (∀ blocks, BlocksOK blocks → SpecOK pf maxKey token blocks.flatten →
+      sealedSearch pf maxKey token base blocks = some (specTids (specLeaf field token) base blocks.flatten)) ∧
+    (∀ entries : List (Nat × Bytes), SpecOK pf maxKey token (entries.map (·.2)) →
+      activeFind pf maxKey token entries =
+        some ((entries.filter fun e => (specLeaf field token).valMatch e.2).map (·.1))) :=
+  ⟨fun dict h => search_eq_spec pf maxKey field token base dict h,
+   fun dict hs h => ordered_search_eq_spec pf maxKey field token base dict hs h,
+   fun blocks ok h => sealed_eq_spec pf maxKey field token base blocks ok h,
+   fun entries h => active_eq_spec pf maxKey field token entries h⟩
+
+/-- `specTids` is C02's `leafTokens` seen through TIDs: the positions of the dictionary values that satisfy
+`Leaf.valMatch` -/
+theorem c13_specTids_mem (l : SV.Spec.Leaf) (base : Nat) (dict : List Bytes) (tid : Nat) :
+    tid ∈ specTids l base dict ↔ base ≤ tid ∧ tid < base + dict.length ∧ l.valMatch (dict.getD (tid - base) []) = true := by
+  simp only [specTids, List.mem_filter, List.mem_range'_1]
+  constructor
+  · rintro ⟨⟨a, b⟩, c⟩; exact ⟨a, b, c⟩
+  · rintro ⟨a, b, c⟩; exact ⟨⟨a, b⟩, c⟩
+
+/-! ### where the Spec's `numVal` (decimal integers) and the code's `ParseFloat` genuinely differ
+(each `pf` below is a table of what `strconv.ParseFloat` answers, as order keys) -/
+
+/-- W1: `[1 TO 2]` and the token `1.5`: the code compares numbers and accepts; the Spec does not know `1.5` as a
+number, so in a numeric range it never matches -/
+example :
+    rangeCheck (fun b => if b = [49] then some 10 else if b = [50] then some 20 else if b = [49, 46, 53] then some 15 else none)
+      100 ⟨some [49], some [50], true, true⟩ [49, 46, 53] = true ∧
+    (specLeaf [] (.range ⟨some [49], some [50], true, true⟩)).valMatch [49, 46, 53] = false := by decide
+/-- W2: `[1.5 TO 2]` and the token `100`: the code is numeric (rejects), the Spec falls back to text (accepts) -/
+example :
+    rangeCheck (fun b => if b = [49, 46, 53] then some 15 else if b = [50] then some 20 else if b = [49, 48, 48] then some 1000 else none)
+      10000 ⟨some [49, 46, 53], some [50], true, true⟩ [49, 48, 48] = false ∧
+    (specLeaf [] (.range ⟨some [49, 46, 53], some [50], true, true⟩)).valMatch [49, 48, 48] = true := by decide
+/-- W3: `(9007199254740992 TO *]` and the token `9007199254740993`: both strings parse to the same float64, so the
+code rejects; as integers the token is larger, so the Spec accepts -/
+example :
+    rangeCheck (fun b => if b = [57,48,48,55,49,57,57,50,53,52,55,52,48,57,57,50] ∨ b = [57,48,48,55,49,57,57,50,53,52,55,52,48,57,57,51]
+        then some 4845873199050653696 else none)
+      maxFloatKey ⟨some [57,48,48,55,49,57,57,50,53,52,55,52,48,57,57,50], none, false, true⟩
+        [57,48,48,55,49,57,57,50,53,52,55,52,48,57,57,51] = false ∧
+    (specLeaf [] (.range ⟨some [57,48,48,55,49,57,57,50,53,52,55,52,48,57,57,50], none, false, true⟩)).valMatch
+        [57,48,48,55,49,57,57,50,53,52,55,52,48,57,57,51] = true := by decide
 
 /-! ## Non-vacuity -/
 
